@@ -105,7 +105,9 @@ Definition ledger : msig := mkSig
   (fun _ _ => 0)
   (fun s => [lsum (l_bal s) mod 256; lsum (l_nonce s) mod 256; l_fees s mod 256; l_pool s mod 256])
   (fun evs => [N.of_nat (length evs) mod 256; fold_right N.add 0 evs mod 256])
-  (fun key sr er => 255 :: N.of_nat (length sr) :: sr ++ er).
+  (fun key sr er => 255 :: N.of_nat (length sr) :: sr ++ er)
+  (fun hd s => Some (s, []))
+  (fun hd s => Some (s, [])).
 
 (* "staking": BeginBlock moves the accumulated fees to the common pool; ExecuteTx transfers *)
 Definition ledger_app : app ledger := mkApp ledger [115] (fun _ => true) false
